@@ -560,6 +560,12 @@ LostMarkRight == [][\A j \in Jobs : (job'[j].lost # job[j].lost) =>
 (* no earlier than grace after detection *)
 LostNotEarly == [][\A j \in Jobs : (job[j].out # "lost" /\ job'[j].out = "lost") =>
                        (job[j].lost # None /\ now - job[j].lost[1] > Grace)]_vars
+(* every reap attributes the loss of every unfinished job whose worker is gone -- also of a job   *)
+(* whose worker had been reaped before its ACK was read (F13: late and with status 0, not never) *)
+ReapAttributes == [][(act'.name = "Maintain" /\ pstate = "RUN" /\ ~raised /\ ExitedIdx(pool) # {}) =>
+    \A j \in Jobs : (job[j].incache /\ ~job[j].ready /\ job[j].owner # 0 /\ job[j].lost = None
+                      /\ job[j].owner \notin PoolPids(Remaining(pool)))
+                     => (job'[j].lost # None \/ job'[j].ready)]_vars
 (* with periodic supervision: resolved by detection + Grace + 1 *)
 LostNotLate == \A j \in Jobs : (Periodic /\ job[j].lost # None /\ ~job[j].ready /\ job[j].incache /\ pstate = "RUN" /\ ~raised)
                        => now - job[j].lost[1] <= Grace + 1
